@@ -130,6 +130,11 @@ func vH_C06_step() {
 		return len(got) <= stopAt
 	}
 	vis := func(i *Item) bool { return visEx(i, 0) }
+	if vChoose("via-snapshot", 0, vParam("viasnap")) == 1 {
+		vTrace("via-snapshot")
+		c = pre.s.Snapshot().GetCollection(cfg.name)
+		vAssert("snapshot-coll", c != nil)
+	}
 	var err error
 	switch {
 	case descend && ex:
